@@ -13,6 +13,9 @@ pub type CView = Map<Seq<u8>, Item>;
 pub open spec fn item_of(r: Record) -> Item {
     Item { value: r.value@, flags: r.header.flags, cas: r.header.cas, ts: r.header.timestamp, ttl: r.header.time_to_live }
 }
+// ASSUMED of every record the map hands out: it was stamped by `set` with a clock value below 2^63
+pub open spec fn stamped_ok(r: Record) -> bool { r.header.timestamp < 0x8000_0000_0000_0000 }
+
 pub open spec fn same_item(a: Item, b: Item) -> bool {
     a.value =~= b.value && a.flags == b.flags && a.cas == b.cas && a.ts == b.ts && a.ttl == b.ttl
 }
